@@ -124,7 +124,9 @@ def _check_text(prog, its, layout, crlf, viols, seen, outcomes, what):
     elif pn.version != want_version:
         viols.append(V("C10:parse:wrong-version", "version %r for %r" % (pn.version, text), **tag))
     else:
-        outcomes["ok"] = outcomes.get("ok", 0) + 1
+        kinds = sorted({x[0] if isinstance(x, tuple) and x and isinstance(x[0], str) else "?" for _, x in _leaves(_norm(got)) if isinstance(x, tuple)})
+        lab = "ok:v%d:%s" % (pn.version, "+".join(k for k in kinds if k in ("int", "float", "str", "list", "dict")) or "no-values")
+        outcomes[lab] = outcomes.get(lab, 0) + 1
     return new
 
 
